@@ -68,6 +68,7 @@ class Unit:
     note: str = ""
     no_nondet_static: bool = False
     quick: bool = True                # part of the quick tier
+    minisat_cross: bool = False       # thorough tier: repeat with the default MiniSat back end
 
 
 @dataclass
